@@ -96,6 +96,13 @@ if __name__ == '__main__':
         mirsym.set_mode(mode)
         del mirsym.RANGE[:]
         r = CATALOG[sc_run](fns, src, nmax)
+        if r.verdict == 'inconclusive' and 'solver returned unknown' in (r.reason or '') and mode == 'bv':
+            # bit-blasting a symbolic product / quotient did not finish: decide the same obligations over mathematical integers in [0, 2^64)
+            # with the wrap conditions explicit (the encoding the chunk scenarios use by default)
+            mode = 'int'
+            mirsym.set_mode(mode)
+            del mirsym.RANGE[:]
+            r = CATALOG[sc_run](fns, src, nmax)
         if sc.endswith('@ind'):
             r.bounds = 'ALL 64-bit N: the pipeline\'s internal iteration is summarised by an automatically instantiated and solver-checked loop invariant (induction over the iteration number) instead of unrolling; ' + r.bounds.replace('N <= %d' % nmax, 'no bound on N')
         r.bounds += ' [numeric back-end: %s]' % ('mathematical integers in [0, 2^64) with explicit wrap conditions' if mode == 'int' else '64-bit bit-vectors')
